@@ -193,7 +193,16 @@ where
 
         self.read_block()?;
 
-        self.block.data_mut().set_position(usize::from(upos));
+        let upos = usize::from(upos);
+
+        if upos > self.block.data().len() {
+            return Err(io::Error::new(
+                io::ErrorKind::InvalidInput,
+                "invalid uncompressed position",
+            ));
+        }
+
+        self.block.data_mut().set_position(upos);
 
         Ok(pos)
     }
